@@ -244,9 +244,16 @@ fn remove_indent<C: Content>(indent: usize, src: &[C::Underlying]) -> Vec<C::Und
   let new_line = get_new_line::<C>();
   let lines: Vec<_> = src
     .split(|b| *b == new_line)
-    .map(|line| match line.strip_prefix(&*indentation) {
-      Some(stripped) => stripped,
-      None => line,
+    .enumerate()
+    .map(|(i, line)| {
+      // the first line starts at the node itself: its leading spaces are content, not indentation
+      if i == 0 {
+        return line;
+      }
+      match line.strip_prefix(&*indentation) {
+        Some(stripped) => stripped,
+        None => line,
+      }
     })
     .collect();
   lines.join(&new_line).to_vec()
